@@ -189,6 +189,9 @@ impl<L: Language, N: Analysis<L>> EGraph<L, N> {
         let psn = self.classes[&i].nodes[&sh].clone();
         let node = sh.apply_slotmap(&psn.elem);
         self.raw_remove_from_class(i, sh.clone());
+        // If the e-node is a usage of its own class, the `update_analysis` above has re-queued it under `sh`.
+        // It is no longer registered under that shape; it is re-made below under the shape it is stored with.
+        self.pending.remove(&sh);
         let app_i = self.mk_sem_identity_applied_id(i);
 
         let enode = &node;
